@@ -64,11 +64,12 @@ def proj_slices(res, box, shape):
     return [[rng(sl[0], h), rng(sl[1], w)], [rng(ss[0], bh), rng(ss[1], bw)]]
 
 
-def call(op, a, b, c, img, flt, B, wrap=int):
+def call(op, a, b, c, img, flt, B, wrap=int, eps=(0, 0, 0, 0), epsk=20):
     """Perform one operation on the real class; return the projected result."""
     try:
         if op == 'from_float':
-            return proj_box(B.from_float(flt[0] / 8.0, flt[1] / 8.0, flt[2] / 8.0, flt[3] / 8.0))
+            d = 2.0 ** -epsk
+            return proj_box(B.from_float(flt[0] / 8.0 + eps[0] * d, flt[1] / 8.0 + eps[1] * d, flt[2] / 8.0 + eps[2] * d, flt[3] / 8.0 + eps[3] * d))
         A = B(*[wrap(v) for v in a])
         if op == 'union':
             r1 = A.union(B(*[wrap(v) for v in b]))
@@ -214,12 +215,21 @@ def trace_validation(ctx, B):
             if rnd.random() < 0.5:      # exactly on rounding boundaries (k + 1/2)
                 fx = [8 * (fx[0] // 8) + 4, 8 * (fx[1] // 8) + 4]
             flt = fx + fy
-        real = call(op, a, b, [0, 0, 0, 0], img, flt, B, wrap=wrap)
+        eps, epsk = [0, 0, 0, 0], 20
+        if op == 'from_float' and rnd.random() < 0.6:
+            # just below / just above the lattice value (and hence just below / above every rounding boundary k + 1/2)
+            eps = [rnd.choice([-1, 0, 1]) for _ in range(4)]
+            epsk = rnd.choice([10, 18, 22, 26, 30]) if max(abs(v) for v in flt) < 8 * 10 ** 4 else 10
+            if flt[0] == flt[1] and eps[0] > eps[1]:
+                eps[1] = eps[0]
+            if flt[2] == flt[3] and eps[2] > eps[3]:
+                eps[3] = eps[2]
+        real = call(op, a, b, [0, 0, 0, 0], img, flt, B, wrap=wrap, eps=eps, epsk=epsk)
         if isinstance(real, dict):
             res = real
         else:
             res = real
-        events.append({'op': op, 'a': a, 'b': b, 'img': img, 'flt': flt, 'res': res, 'wrap': wrap.__name__})
+        events.append({'op': op, 'a': a, 'b': b, 'img': img, 'flt': flt, 'eps': eps, 'epsk': epsk, 'res': res, 'wrap': wrap.__name__})
     # exceptions are not explainable by the spec: all of these calls are within the domain
     tl_events = []
     for e in events:
@@ -230,7 +240,7 @@ def trace_validation(ctx, B):
     wd = tlc.workdir('c19trace')
     path = os.path.join(wd, 'events.json')
     with open(path, 'w') as f:
-        json.dump([{k: v for k, v in e.items() if k != 'wrap'} for e in tl_events], f)
+        json.dump([{k: v for k, v in e.items() if k not in ('wrap', 'epsk')} for e in tl_events], f)
     res = tlc.run('Trace_BBox', cfg='Trace_BBox.cfg', dump=True, env={'TRACE_FILE': path}, tag='c19trace')
     ctx.tlc(res, 'Trace_BBox validation of recorded calls')
     seen = 0
